@@ -74,7 +74,6 @@ var c23Intercepts = map[string]string{
 	"readonlystore.Batch.Delete":         "read-only view: the batch mutator is rejected, so the batch stays empty",
 	"skipkeys.Store.Has":                 "filter wrapper: keys under skipPrefix are reported absent without consulting the store (intended change of content)",
 	"skipkeys.Store.Get":                 "filter wrapper: keys under skipPrefix are reported absent without consulting the store (intended change of content)",
-	"skipkeys.iterator.Next":             "filter loop `for first || hidden(Key())` enters its body at least once because first starts true; that is a value fact the path rule cannot see. The wrapped Next is the only positioning call (checked by the callee rule)",
 	"flaggedproducer.flaggedStore.Close": "the producer owns the store's lifetime: Close of the handed-out store is a no-op (C25)",
 	"flaggedproducer.flaggedStore.Drop":  "drop goes through the producer's DropFn callback (C25.flag.drop)",
 	"cachedproducer.StoreWithFn.Close":   "close goes through the reference-counting CloseFn callback (C27)",
@@ -104,7 +103,7 @@ func init() {
 			"(d) Both bytesPrefixRange helpers are called as (prefix, start) by the four NewIterator methods and their result is the library range; the lower bound is the prefix helper's lower bound with start appended, the upper bound is left to the prefix helper (LevelDB: library util.BytesPrefix; Pebble: local copy whose limit is allocated only for a byte < 0xff scanning from the end, incremented, nil otherwise); Pebble returns the unbounded nil range only for prefix == nil && start == nil; the lower bound must be built in private memory. "+
 			"(e) Pebble Replay puts on kind Set and deletes on kind Delete with the decoded key/value, continues only on err == nil and returns that error; the LevelDB replayer forwards Put and Delete only while no failure is recorded, records the writer's error, and batch.Replay must return the recorded failure. "+
 			"(f) memorydb is the flushable overlay over the always-empty devnulldb (all devnulldb methods return zero results); the overlay stores a copy on Put and returns a copy on Get. "+
-			"(g) T20 over every wrapper type of kvdb (table, synced, readonlystore, skipkeys, nokeyiserr, batched, flaggedStore, StoreWithFn, closeDropWrapped, the two replayers): each call on the wrapped key-value value targets the same-named method unless the pair is in the frozen exception table; a key-value method that has a same-named delegate reaches it before every non-error return, and one that has none is in the frozen intercept table; readonlystore rejects every Writer method on the store and on its batches; every synced method holds the shared mutex (write mode for mutators) while delegating. "+
+			"(g) T20 over every wrapper type of kvdb (table, synced, readonlystore, skipkeys, nokeyiserr, batched, flaggedStore, StoreWithFn, closeDropWrapped, the two replayers): each call on the wrapped key-value value (directly, through a single-definition local, or inside an unexported helper method all of whose callers are that one operation) targets the same-named method unless the pair is in the frozen exception table; a key-value method that has a same-named delegate (own call, or a module helper that always makes it) passes it on every feasible path to a non-error exit (return or end of body; edges implying err != nil and edges contradicted by a constant local boolean flag are not followed), and one that has none is in the frozen intercept table; unused table entries are noted, not reported; readonlystore rejects every Writer method on the store and on its batches; every synced method holds the shared mutex (write mode for mutators) while delegating. "+
 			"NOT decided: equivalence of the backends and wrapper stacks on operation histories, byte-order/successor arithmetic of the libraries, iterator value semantics (lifetime and nil-ness of Key()/Value() slices), lifecycle after Close/Release (double Release of table iterators and pebble snapshots), key translation of tables (C24), overlay semantics of Flushable (C22).",
 		[]string{
 			"goleveldb and pebble API contracts: ErrNotFound means absent; a pebble value is valid until closer.Close(); First must precede Next; util.BytesPrefix(p) returns {Start: p (aliased), Limit: successor(p) or nil}",
@@ -240,10 +239,12 @@ func c23AssignOfCall(f *core.FuncInfo, call *ast.CallExpr) *ast.AssignStmt {
 	return out
 }
 
-// c23ErrorExit: the return is reached only on an edge "e != nil" for an error-typed variable or field e (error exit).
-func c23ErrorExit(f *core.FuncInfo, rp core.Point) bool {
+// c23ErrNonNilFact matches "e != nil" for an error-typed variable or field e: an edge implying it leads into
+// error handling (a failed, or already failed, operation), whatever the spelling (e != nil taken, e == nil /
+// nil == e not taken, early return or else-branch).
+func c23ErrNonNilFact(f *core.FuncInfo) func(core.Fact) bool {
 	errT := types.Universe.Lookup("error").Type()
-	ok, _ := f.GuardedBy(rp, func(ft core.Fact) bool {
+	return func(ft core.Fact) bool {
 		cm, k := core.NormCmp(ft)
 		if !k || cm.R == nil || cm.Op != token.NEQ {
 			return false
@@ -260,8 +261,282 @@ func c23ErrorExit(f *core.FuncInfo, rp core.Point) bool {
 		}
 		t := f.Info().TypeOf(l)
 		return t != nil && types.Identical(t, errT)
+	}
+}
+
+// c23Flags: the local boolean variables of f whose value can be followed along a path: declared in f's own
+// body, only written by plain assignments/definitions of f itself, never address-taken, never mentioned in a
+// nested function literal (so nothing but the statements on the path can change them).
+type c23Flags struct {
+	f    *core.FuncInfo
+	vars []*types.Var
+	idx  map[*types.Var]int
+}
+
+const (
+	c23Unknown int8 = iota
+	c23True
+	c23False
+)
+
+func c23FlagsOf(f *core.FuncInfo) *c23Flags {
+	fl := &c23Flags{f: f, idx: map[*types.Var]int{}}
+	cand := map[*types.Var]bool{}
+	isLocalBool := func(v *types.Var) bool {
+		if v == nil || v.IsField() || !(f.Body.Pos() <= v.Pos() && v.Pos() < f.Body.End()) {
+			return false
+		}
+		b, ok := v.Type().Underlying().(*types.Basic)
+		return ok && b.Kind() == types.Bool
+	}
+	f.InspectOwn(func(n ast.Node) bool {
+		switch x := n.(type) {
+		case *ast.AssignStmt:
+			for _, l := range x.Lhs {
+				if v := varOfRaw(f, l); isLocalBool(v) {
+					cand[v] = true
+				}
+			}
+		case *ast.ValueSpec:
+			for _, id := range x.Names {
+				if v, _ := f.Info().ObjectOf(id).(*types.Var); isLocalBool(v) {
+					cand[v] = true
+				}
+			}
+		}
+		return true
 	})
-	return ok
+	if len(cand) == 0 {
+		return fl
+	}
+	drop := func(e ast.Expr) {
+		if v := varOfRaw(f, e); v != nil {
+			delete(cand, v)
+		}
+	}
+	var inLit int
+	var visit func(n ast.Node) bool
+	visit = func(n ast.Node) bool {
+		switch x := n.(type) {
+		case *ast.FuncLit:
+			inLit++
+			ast.Inspect(x.Body, visit)
+			inLit--
+			return false
+		case *ast.Ident:
+			if inLit > 0 {
+				if v, _ := f.Info().ObjectOf(x).(*types.Var); v != nil {
+					delete(cand, v)
+				}
+			}
+		case *ast.UnaryExpr:
+			if x.Op == token.AND {
+				drop(x.X)
+			}
+		case *ast.RangeStmt:
+			if x.Key != nil {
+				drop(x.Key)
+			}
+			if x.Value != nil {
+				drop(x.Value)
+			}
+		case *ast.AssignStmt:
+			if x.Tok != token.ASSIGN && x.Tok != token.DEFINE {
+				for _, l := range x.Lhs {
+					drop(l)
+				}
+			}
+		}
+		return true
+	}
+	ast.Inspect(f.Body, visit)
+	for v := range cand {
+		fl.vars = append(fl.vars, v)
+	}
+	sort.Slice(fl.vars, func(i, j int) bool { return fl.vars[i].Pos() < fl.vars[j].Pos() })
+	for i, v := range fl.vars {
+		fl.idx[v] = i
+	}
+	return fl
+}
+
+// eval: three-valued value of a boolean expression under env (flags with a known constant value, constants,
+// !, &&, ||, ==, != over those); everything else is unknown.
+func (fl *c23Flags) eval(e ast.Expr, env []int8) int8 {
+	e = ast.Unparen(e)
+	if e == nil {
+		return c23Unknown
+	}
+	if b, ok := c23BoolConst(fl.f, e); ok {
+		if b {
+			return c23True
+		}
+		return c23False
+	}
+	neg := func(v int8) int8 {
+		switch v {
+		case c23True:
+			return c23False
+		case c23False:
+			return c23True
+		}
+		return c23Unknown
+	}
+	switch x := e.(type) {
+	case *ast.Ident:
+		if v, _ := fl.f.Info().ObjectOf(x).(*types.Var); v != nil {
+			if i, ok := fl.idx[v]; ok {
+				return env[i]
+			}
+		}
+	case *ast.UnaryExpr:
+		if x.Op == token.NOT {
+			return neg(fl.eval(x.X, env))
+		}
+	case *ast.BinaryExpr:
+		a, b := fl.eval(x.X, env), fl.eval(x.Y, env)
+		switch x.Op {
+		case token.LAND:
+			if a == c23False || b == c23False {
+				return c23False
+			}
+			if a == c23True && b == c23True {
+				return c23True
+			}
+		case token.LOR:
+			if a == c23True || b == c23True {
+				return c23True
+			}
+			if a == c23False && b == c23False {
+				return c23False
+			}
+		case token.EQL, token.NEQ:
+			if a != c23Unknown && b != c23Unknown {
+				if (a == b) == (x.Op == token.EQL) {
+					return c23True
+				}
+				return c23False
+			}
+		}
+	}
+	return c23Unknown
+}
+
+// step applies the effect of one CFG node on the flags.
+func (fl *c23Flags) step(n ast.Node, env []int8) []int8 {
+	if len(fl.vars) == 0 {
+		return env
+	}
+	set := func(out []int8, v *types.Var, val int8) []int8 {
+		i, ok := fl.idx[v]
+		if !ok || out[i] == val {
+			return out
+		}
+		if &out[0] == &env[0] {
+			out = append([]int8(nil), env...)
+		}
+		out[i] = val
+		return out
+	}
+	out := env
+	switch x := n.(type) {
+	case *ast.AssignStmt:
+		vals := make([]int8, len(x.Lhs))
+		if len(x.Lhs) == len(x.Rhs) {
+			for i := range x.Rhs {
+				vals[i] = fl.eval(x.Rhs[i], env) // right-hand sides see the old values
+			}
+		}
+		for i, l := range x.Lhs {
+			if v := varOfRaw(fl.f, l); v != nil {
+				out = set(out, v, vals[i])
+			}
+		}
+	case *ast.ValueSpec:
+		for i, id := range x.Names {
+			v, _ := fl.f.Info().ObjectOf(id).(*types.Var)
+			if v == nil {
+				continue
+			}
+			val := c23Unknown
+			switch {
+			case len(x.Values) == 0:
+				val = c23False // zero value
+			case len(x.Values) == len(x.Names):
+				val = fl.eval(x.Values[i], env)
+			}
+			out = set(out, v, val)
+		}
+	}
+	return out
+}
+
+// c23SkipsDelegate: is there a feasible path from entry to a non-error exit (return statement or falling off
+// the end of the body; panics owe nothing) that passes none of the via points? Returns the position of that exit.
+//
+// A path is followed only along edges that (a) do not imply "e != nil" for an error value e (those lead into
+// error handling: the operation failed or had failed before, nothing is owed), and (b) are not contradicted by
+// the constant value a local boolean flag is known to hold at the branch (`first := true; for first || c {…}`
+// enters its body at least once; `done := false; …; if done {return}` cannot leave there). Both are decided on
+// CFG edges and normalised conditions, so if/else, early-return, switch and for-loop spellings agree.
+func c23SkipsDelegate(f *core.FuncInfo, via []core.Point) (bool, token.Pos) {
+	viaSet := core.PointSet(via...)
+	errEdge := f.GuardEdges(c23ErrNonNilFact(f))
+	fl := c23FlagsOf(f)
+	type state struct {
+		b   *cfg.Block
+		env []int8
+	}
+	key := func(s state) string { return fmt.Sprintf("%d|%v", s.b.Index, s.env) }
+	seen := map[string]bool{}
+	work := []state{{f.CFG().Blocks[0], make([]int8, len(fl.vars))}}
+	for len(work) > 0 {
+		s := work[0]
+		work = work[1:]
+		if k := key(s); seen[k] {
+			continue
+		} else {
+			seen[k] = true
+		}
+		b, env := s.b, s.env
+		cut := false
+		for i, n := range b.Nodes {
+			pt := core.Point{B: b, I: i}
+			if viaSet(pt) {
+				cut = true
+				break
+			}
+			if r, ok := n.(*ast.ReturnStmt); ok {
+				return true, r.Pos()
+			}
+			env = fl.step(n, env)
+		}
+		if cut {
+			continue
+		}
+		if len(b.Succs) == 0 {
+			if b.Live && !c23EndsInPanic(f, b) {
+				return true, f.Body.Rbrace
+			}
+			continue
+		}
+		decided := c23Unknown
+		if len(b.Succs) == 2 {
+			if c := f.BranchCond(b); c != nil {
+				decided = fl.eval(c, env)
+			}
+		}
+		for si, succ := range b.Succs {
+			if errEdge(b, si) {
+				continue
+			}
+			if (decided == c23True && si == 1) || (decided == c23False && si == 0) {
+				continue
+			}
+			work = append(work, state{succ, env})
+		}
+	}
+	return false, token.NoPos
 }
 
 // c23EndsInPanic: the block's last node is a call that never returns.
@@ -282,48 +557,6 @@ func c23EndsInPanic(f *core.FuncInfo, b *cfg.Block) bool {
 		return true
 	}
 	return false
-}
-
-// c23SkipsDelegate: is there a path from entry to a non-error exit (return statement or falling off the end
-// of the body; panics owe nothing) that passes none of the via points? Returns the position of that exit.
-func c23SkipsDelegate(f *core.FuncInfo, via []core.Point) (bool, token.Pos) {
-	viaSet := core.PointSet(via...)
-	seen := map[*cfg.Block]bool{}
-	work := []*cfg.Block{f.CFG().Blocks[0]}
-	for len(work) > 0 {
-		b := work[0]
-		work = work[1:]
-		if seen[b] {
-			continue
-		}
-		seen[b] = true
-		cut := false
-		for i, n := range b.Nodes {
-			pt := core.Point{B: b, I: i}
-			if viaSet(pt) {
-				cut = true
-				break
-			}
-			if r, ok := n.(*ast.ReturnStmt); ok {
-				if !c23ErrorExit(f, pt) {
-					return true, r.Pos()
-				}
-				cut = true
-				break
-			}
-		}
-		if cut {
-			continue
-		}
-		if len(b.Succs) == 0 {
-			if b.Live && !c23EndsInPanic(f, b) {
-				return true, f.Body.Rbrace
-			}
-			continue
-		}
-		work = append(work, b.Succs...)
-	}
-	return false, token.NoPos
 }
 
 func c23MethodOf(name string) string {
@@ -1131,7 +1364,7 @@ func c23ReplayClause(c *core.Ctx) {
 			g, _ := f.GuardedBy(x.Pt, fieldNilFact(f, failure, true))
 			rec := false
 			for _, a := range assignsToField(f, failure) {
-				if a.RHS != nil && ast.Unparen(a.RHS) == ast.Expr(x.Call) {
+				if a.RHS != nil && ast.Unparen(resolveLocal(f, a.RHS)) == ast.Expr(x.Call) {
 					rec = true
 				}
 			}
@@ -1369,8 +1602,8 @@ func c23WrappedTarget(f *core.FuncInfo, cs *core.CallSite, wrapped map[*types.Va
 	if !ok || s.Kind() != types.MethodVal {
 		return nil
 	}
-	// explicit: the receiver expression is a selection of a wrapped field
-	if inner, ok := ast.Unparen(sel.X).(*ast.SelectorExpr); ok {
+	// explicit: the receiver expression is a selection of a wrapped field (possibly held in a single-definition local)
+	if inner, ok := ast.Unparen(resolveLocal(f, sel.X)).(*ast.SelectorExpr); ok {
 		if s2, ok := f.Info().Selections[inner]; ok {
 			if v, ok := s2.Obj().(*types.Var); ok && wrapped[v] {
 				return v
@@ -1410,6 +1643,46 @@ func c23KVMethodNames(c *core.Ctx) map[string]bool {
 	return out
 }
 
+// c23HelperOf: is f (a method of the wrapper type, not itself a key-value operation) a private helper of the
+// wrapper's operation op? It is when it is unexported and every call of it in its package is made by the
+// wrapper's own method op, or by another such helper of op. A wrapped call of op inside it then belongs to op
+// ("the delegation lives in a helper"), not to a different operation.
+func c23HelperOf(p *core.Prog, f *core.FuncInfo, wrapper, op string) bool {
+	var rec func(h *core.FuncInfo, depth int) bool
+	rec = func(h *core.FuncInfo, depth int) bool {
+		if h.Obj == nil || h.Obj.Exported() || depth > 3 {
+			return false
+		}
+		nCalls, nUses := 0, 0
+		for _, g := range p.FuncsInPkg(core.RelPkg(h.Pkg.PkgPath)) {
+			all := append([]*core.FuncInfo{g}, allLits(g)...)
+			for _, x := range all {
+				for _, cs := range x.Calls() {
+					if cs.Callee != types.Object(h.Obj) {
+						continue
+					}
+					nCalls++
+					if g.RecvTypeName() != wrapper {
+						return false
+					}
+					if g.Obj.Name() != op && (g == h || !rec(g, depth+1)) {
+						return false
+					}
+				}
+			}
+			// a method value taken without being called (s.helper passed around) escapes the analysis
+			g.InspectAll(func(nd ast.Node) bool {
+				if id, ok := nd.(*ast.Ident); ok && g.Info().Uses[id] == types.Object(h.Obj) {
+					nUses++
+				}
+				return true
+			})
+		}
+		return nCalls >= 1 && nUses == nCalls
+	}
+	return rec(f, 0)
+}
+
 func c23WrapperClause(c *core.Ctx) {
 	c.Clause("C23.wrapper", func() {
 		p := c.P
@@ -1423,11 +1696,11 @@ func c23WrapperClause(c *core.Ctx) {
 				continue
 			}
 			nTypes++
+			w := w
 			for _, f := range ms {
 				nMethods++
 				m := f.Obj.Name()
 				who := c23Short(f.Name)
-				var same []*core.CallSite
 				var callees []string
 				bad := false
 				for _, cs := range f.Calls() {
@@ -1437,12 +1710,15 @@ func c23WrapperClause(c *core.Ctx) {
 					cm := c23MethodOf(cs.Name)
 					callees = append(callees, cm)
 					if cm == m {
-						same = append(same, cs)
 						continue
 					}
 					key := who + "->" + cm
 					if _, ok := c23CalleeExceptions[key]; ok {
 						usedExc[key] = true
+						continue
+					}
+					// a private helper that carries (part of) one operation: every caller is the wrapper's cm
+					if !kvMethods[m] && c23HelperOf(p, f, w.name, cm) {
 						continue
 					}
 					bad = true
@@ -1452,10 +1728,15 @@ func c23WrapperClause(c *core.Ctx) {
 					usedExc[who] = true // the method is already reported; do not also call its table entry stale
 					continue
 				}
+				// the same-named delegations: calls of m on the wrapped value, made here or in a helper of the
+				// module every returning path of which makes one (callee summary, depth 2)
+				same := f.SitesMust(func(cs *core.CallSite) bool {
+					return c23MethodOf(cs.Name) == m && c23WrappedTarget(cs.F, cs, w.wrapped) != nil
+				}, 2)
 				switch {
 				case len(same) > 0:
 					// every non-error exit is reached through the same-named delegate
-					skips, at := c23SkipsDelegate(f, core.Points(same))
+					skips, at := c23SkipsDelegate(f, same)
 					if skips {
 						if why, ok := c23Intercepts[who]; ok {
 							usedExc[who] = true
@@ -1478,16 +1759,24 @@ func c23WrapperClause(c *core.Ctx) {
 				}
 			}
 		}
-		// stale table entries are reported (a frozen table must not rot)
+		// Table entries are permissions, not obligations: an entry that no longer matches anything means the
+		// wrapper now delegates more directly than the table allows (every method is still judged above, and a
+		// renamed or new method without an entry fails there). An unused entry is therefore noted for the
+		// table's maintainer and is not a finding about the code.
+		var stale []string
 		for k := range c23CalleeExceptions {
 			if !usedExc[k] {
-				c.Undecided("exception "+k, "T20 table", token.NoPos, "exception table entry no longer matches any call: the wrapper changed shape, review the table")
+				stale = append(stale, "exception "+k)
 			}
 		}
 		for k := range c23Intercepts {
 			if !usedExc[k] {
-				c.Undecided("intercept "+k, "T20 table", token.NoPos, "intercept table entry no longer matches a non-delegating method: the wrapper changed shape, review the table")
+				stale = append(stale, "intercept "+k)
 			}
+		}
+		sort.Strings(stale)
+		for _, k := range stale {
+			c.Note("C23.wrapper: table entry unused on this tree (the wrapper delegates without needing it): %s", k)
 		}
 		// batched.Flush: Reset only after a successful Write
 		fl := c.Fn("kvdb/batched.Store.Flush")
